@@ -431,7 +431,11 @@ func newReports() (string, string) {
 				continue
 			}
 			fn := "(outside-oxy)"
-			for _, m := range frameRE.FindAllStringSubmatch(block, -1) {
+			for i, m := range frameRE.FindAllStringSubmatch(block, -1) {
+				if i == 0 && strings.Contains(m[1], "/zzverif/") {
+					// the access itself is made by harness code: whatever called it, the memory is the harness's
+					break
+				}
 				if !strings.Contains(m[1], "/zzverif/") {
 					fn = strings.TrimPrefix(m[1], "github.com/vulcand/oxy/v2/")
 					break
